@@ -395,12 +395,14 @@ Qed.
 
 (* registry events, in explicit form *)
 Lemma reg_newinst s th i n s' : step_reg s th (ENewInst i n) = Some s' ->
-  exists c, get n (confs s) = Some c /\ get i (insts s) = None /\ s' = s <| insts := set i (new_inst n c) (insts s) |>.
+  exists c, get n (confs s) = Some c /\ get i (insts s) = None /\
+            s' = set_stage th i 0 (s <| insts := set i (new_inst n c) (insts s) |>).
 Proof.
-  intros H. kind_cases H. apply negb_true_iff in E0. unfold has in E0. destruct (get i (insts s)); [discriminate|]. eauto.
+  intros H. kind_cases H. apply negb_true_iff in E0. unfold has in E0. destruct (get i (insts s)); [discriminate|].
+  eexists; repeat split; eauto.
 Qed.
 Lemma reg_regadd s th i n s' : step_reg s th (ERegAdd i n) = Some s' ->
-  exists x, get i (insts s) = Some x /\ nm x = n /\ s' = s <| running := set n i (running s) |>.
+  exists x, get i (insts s) = Some x /\ nm x = n /\ s' = set_stage th i 2 (s <| running := set n i (running s) |>).
 Proof. intros H. kind_cases H. split_andb. eexists; repeat split; eauto. Qed.
 Lemma reg_regdel s th i s' : step_reg s th (ERegDel i) = Some s' ->
   exists x, get i (insts s) = Some x /\ pc x = IWgDone /\ s' = s <| running := del (nm x) (running s) |>.
@@ -483,6 +485,9 @@ Proof.
     + intros A B. destruct (M6 _ _ _ _ _ _ A B). split; auto.
 Qed.
 
+Lemma Minv_set_stage s th i k : Minv s -> Minv (set_stage th i k s).
+Proof. intros [M1 M2 M3 M4 M5 M6]. constructor; auto. Qed.
+
 Lemma Minv_step_core s th e s' : Minv s -> step_core s th e = Some s' -> Minv s'.
 Proof.
   intros M H.
@@ -490,8 +495,9 @@ Proof.
   - exact M.
   - destruct M as [M1 M2 M3 M4 M5 M6]. constructor; auto.
   - destruct e; try (cbn in Hk; discriminate Hk).
-    + destruct (reg_newinst _ _ _ _ _ Hk) as (c & ? & ? & ->). now apply Minv_newinst.
-    + destruct (reg_regadd _ _ _ _ _ Hk) as (x & Hx & Hn & ->). destruct M as [M1 M2 M3 M4 M5 M6]. constructor; auto.
+    + destruct (reg_newinst _ _ _ _ _ Hk) as (c & ? & ? & ->). now apply Minv_set_stage, Minv_newinst.
+    + destruct (reg_regadd _ _ _ _ _ Hk) as (x & Hx & Hn & ->). apply Minv_set_stage.
+      destruct M as [M1 M2 M3 M4 M5 M6]. constructor; auto.
       cbn. intros k j. rewrite get_set. destruct (N.eqb_spec n k); [|apply M3].
       intros Q. injection Q as <-. subst k. exists x. auto.
     + destruct (reg_regdel _ _ _ _ Hk) as (x & Hx & Hp & ->). destruct M as [M1 M2 M3 M4 M5 M6]. constructor; auto.
